@@ -591,7 +591,7 @@ func parallelMadeIndex(fb *FuncBody, n ast.Node) string {
 	if !ok || !isBuiltin(info, ln, "len") || len(ln.Args) != 1 {
 		return ""
 	}
-	pm := parentMap(fb.Body)
+	pm := parentMap(root.Body) // the loop may enclose the literal the expression is in (a closure per iteration)
 	for p := pm[n]; p != nil; p = pm[p] {
 		r, ok := p.(*ast.RangeStmt)
 		if !ok || r.Key == nil || varOf(info, r.Key) != iv {
